@@ -119,7 +119,8 @@ def _getitem_type(v, var, w, op):
 
 
 _BAD_SPECS = ['djhfjd', '^+10', '^ 10', '<5>', '10.5', '<<<', '>>5x', 'a-b>3', 'ab5', '5e',
-              ':bogus', '<5:nope', ':rgb()', '>3:-1', '\u00e9\u00e9', '5:bold;;zz', '^7:not a name']
+              ':bogus', '<5:nope', ':rgb()', '>3:-1', '\u00e9\u00e9', '5:bold;;zz', '^7:not a name',
+              '5\n', '<5\n', '*>7\n', '\n\n']
 
 
 # outside the [fill][+|-][<|>|^][width] grammar of the string-format part (C12's ValueError clause)
